@@ -68,6 +68,8 @@ def run(tier, rep):
 
     cases += [("special", pl) for pl in stream_corpus.special_int_payloads(rnd) + stream_corpus.framelike_payloads(rnd)]
     nops = 0
+    libnames = message_rec.library_names()
+    rep.notes["library_names"] = len(libnames)
     # the same payload is constructed again later (and its later copies are attacked too)
     cases = cases + [c for c in cases if c[0] in ("1005", "1007", "1008", "1029", "1033", "1230", "1077", "4076_201") or rnd.random() < 0.25]
     for ident, pl in cases:
@@ -78,6 +80,9 @@ def run(tier, rep):
         r["sd"] = message_rec.state_digest(msg)
         pubs = [k for k, _ in __import__("harness.decode_rec", fromlist=["x"]).public_attrs(msg)]
         names = rnd.sample(pubs, min(len(pubs), 3 if quick else 6)) + rnd.sample(PRIVATE, 4 if quick else 8)
+        # names the library's own code mentions (an exemption in the guard has to name its attribute)
+        under = [n for n in libnames if n.startswith("_") and not n.startswith("__")]
+        names += rnd.sample(under, min(len(under), 6 if quick else 20)) + rnd.sample(libnames, 3 if quick else 10)
         rnd.shuffle(names)
         ops = []
         for n in names:
